@@ -53,6 +53,21 @@ class C06(Prop):
                     render = rng.choice(["int", "display", "display+", "display-"])
                     cases.append({"kind": "number:" + render + ":" + shape, "tbl": tbl, "idx": idx, "triple": tr, "vkind": render,
                                   "raw_hint": raw, "mult": d["multiplier"], "offset": d["offset"]})
+        # the call made through Device.set(name, value) of the owning device, the requested NUMBER being numerically equal to the raw
+        # value held (scaled descriptions: its raw encoding is another value, often outside the range)
+        for tbl, name in enumerate(param_impl.TABLES):
+            if tbl not in (0, 1, 2, 3, 4):
+                continue
+            for idx, d in enumerate(t[name]):
+                if d["switch"] or (d["multiplier"] == 1.0 and d["offset"] == 0):
+                    continue
+                hi = 255 if d["size"] == 1 else 65535
+                for _ in range(2 if tier == "quick" else 12):
+                    h = rng.randrange(1, 60)
+                    shape = rng.choice(["tight", "wide"])
+                    tr = [h, 0, min(hi, h + rng.randrange(0, 8))] if shape == "tight" else [h, 0, hi]
+                    cases.append({"kind": "number:device-set:" + shape, "tbl": tbl, "idx": idx, "triple": tr, "vkind": "literal", "value": h,
+                                  "mult": d["multiplier"], "offset": d["offset"], "via_device": True})
         # sessions: an unconfirmed call, reports that move the bounds (also with the old value), then a second call
         plain = [(tbl, idx) for tbl, name in enumerate(param_impl.TABLES) if tbl != 5
                  for idx, d in enumerate(t[name]) if not d["switch"] and d["multiplier"] == 1.0 and d["offset"] == 0 and d["size"] == 1]
@@ -118,7 +133,7 @@ class C06(Prop):
 
     def _pyvalue(self, c):
         """The Python value handed to set() and the float the model scales."""
-        if c["vkind"] in ("str", "bool"):
+        if c["vkind"] in ("str", "bool", "literal"):
             return c["value"]
         if c["vkind"] == "int" and c["kind"].startswith("switch"):
             return c["value"]
@@ -143,7 +158,7 @@ class C06(Prop):
         if c["kind"] == "session":
             return vloop.run(param_impl.run_session, c["tbl"], c["idx"], c["triple"], c["calls"], False)
         outs, after, after_call = vloop.run(param_impl.run_set_call, c["tbl"], c["idx"], c["triple"], self._pyvalue(c), 2, 5.0, [],
-                                            False, 0)
+                                            False, 0, c.get("via_device", False))
         return [outs, after_call]
 
     def _reqs(self, cases):
